@@ -301,22 +301,31 @@ Proof.
   repeat split. left. reflexivity.
 Qed.
 
+Lemma breach_events_tx sc t p e : In e (breach_events sc t p) -> r_tx e = p.
+Proof.
+  unfold breach_events. destruct (ti_get (r_index t) p); [intros []|].
+  destruct (says_in_mempool sc p); [intros [<-|[]]; reflexivity|].
+  destruct (aget (car_memo t) p); [intros [<-|[]]; reflexivity|intros [<-|[<-|[]]]; reflexivity].
+Qed.
+
 Section BreachPhase.
   (* t0: the state in which the watcher starts handing breaches over (or any earlier state of
      the same block period with the same apps/index/carrier height: what matters is below) *)
-  Context (sc : script) (t0 : tower).
+  Context (sc : script) (t0 : tower) (D : N -> Prop).   (* D: the disputes being handled *)
   Context (Hnodup : NoDup (map app_uuid (db_apps t0))).
 
   (* tracker k was created in this phase from row a *)
   Definition made_from (k : trk) (a : app) : Prop :=
-    trk_uuid k = app_uuid a /\ t_dispute k = a_loc a /\
+    D (a_loc a) /\ trk_uuid k = app_uuid a /\ t_dispute k = a_loc a /\
     decrypt (a_blob a) (a_loc a) = Some (t_penalty k) /\
     status_of_row k = breach_status sc t0 (t_penalty k) /\
     status_accepted (breach_status sc t0 (t_penalty k)) = true.
 
   Record Ext (t : tower) : Prop := {
     ext_core : same_core t0 t;
-    ext_log : exists evs, rpc_log t = evs ++ rpc_log t0;
+    ext_log : exists evs, rpc_log t = evs ++ rpc_log t0 /\
+                forall e, In e evs ->
+                  exists a, In a (db_apps t0) /\ D (a_loc a) /\ decrypt (a_blob a) (a_loc a) = Some (r_tx e);
     ext_memo_old : forall p r, aget (car_memo t0) p = Some r -> aget (car_memo t) p = Some r;
     ext_memo_new : forall p r, aget (car_memo t0) p = None -> aget (car_memo t) p = Some r ->
                                r = send_status t0 (snd (script_get sc p)) /\ In (ev_send p r) (rpc_log t);
@@ -328,7 +337,7 @@ Section BreachPhase.
   Proof.
     constructor.
     - apply same_core_refl.
-    - exists []. reflexivity.
+    - exists []. split; [reflexivity|intros e []].
     - auto.
     - intros p r H1 H2. congruence.
     - exists []. split; [rewrite app_nil_r; reflexivity|intros k []].
@@ -367,11 +376,11 @@ Section BreachPhase.
   Qed.
 
   Lemma ext_handle t uuid a p s t' :
-    Ext t -> find_app (db_apps t0) uuid = Some a -> decrypt (a_blob a) (a_loc a) = Some p ->
+    Ext t -> find_app (db_apps t0) uuid = Some a -> D (a_loc a) -> decrypt (a_blob a) (a_loc a) = Some p ->
     r_handle_breach sc t uuid (a_loc a) p = Ok s t' ->
     Ext t' /\ grows t t' /\ s = breach_status sc t0 p /\ answered t' uuid p.
   Proof.
-    intros E Hf Hd Hr. apply handle_breach_spec in Hr.
+    intros E Hf HD Hd Hr. apply handle_breach_spec in Hr.
     destruct Hr as [Hs [Hc [Hl [Hm Hk]]]]. rewrite (ext_status t p E) in Hs.
     pose proof (ext_core t E) as Hc0.
     assert (Hh : car_height t0 = car_height t) by apply Hc0.
@@ -401,7 +410,11 @@ Section BreachPhase.
     split; [|split; [exact Hg|split; [exact Hs|exact Hans]]].
     constructor.
     - eapply same_core_trans; eassumption.
-    - destruct (ext_log t E) as [evs He]. exists (breach_events sc t p ++ evs). rewrite Hl, He, app_assoc. reflexivity.
+    - destruct (ext_log t E) as [evs [He Hj]]. exists (breach_events sc t p ++ evs).
+      split; [rewrite Hl, He, app_assoc; reflexivity|].
+      intros e Hie. apply in_app_or in Hie. destruct Hie as [Hie|Hie]; [|apply Hj; exact Hie].
+      exists a. split; [exact Hin|]. split; [exact HD|].
+      rewrite (breach_events_tx _ _ _ _ Hie). exact Hd.
     - intros q r Hq. rewrite Hm. pose proof (ext_memo_old t E q r Hq) as Hq'.
       destruct (breach_memo_cases sc t p) as [->|[Hn [-> _]]]; [exact Hq'|].
       cbn [aget]. destruct (N.eqb q p) eqn:Eqp; [|exact Hq'].
@@ -423,7 +436,7 @@ Section BreachPhase.
       intros k Hik. apply in_app_or in Hik. destruct Hik as [Hik|[<-|[]]]; [apply Hall; exact Hik|].
       exists a. split; [exact Hin|]. unfold made_from.
       cbn [new_trk t_penalty t_dispute]. rewrite <- Hs.
-      repeat split; [rewrite Hu; destruct uuid; reflexivity|exact Hd|apply status_of_new_trk; exact Ha|exact Ha].
+      repeat split; [exact HD|rewrite Hu; destruct uuid; reflexivity|exact Hd|apply status_of_new_trk; exact Ha|exact Ha].
   Qed.
 
   (* the rows with locator d, one after the other *)
@@ -449,13 +462,13 @@ Section BreachPhase.
   Qed.
 
   Lemma breach_uuid_loop_spec d us : forall t inv inv' t',
-    Ext t -> (forall u, In u us -> fst u = d) ->
+    Ext t -> D d -> (forall u, In u us -> fst u = d) ->
     breach_uuid_loop sc d us t inv = Ok inv' t' ->
     Ext t' /\ grows t t' /\ incl inv inv' /\
     (forall u, In u us -> exists a, find_app (db_apps t0) u = Some a /\ row_outcome t' inv' a) /\
     (forall u, In u inv' -> In u inv \/ (In u us /\ exists a, find_app (db_apps t0) u = Some a /\ row_invalid a)).
   Proof.
-    induction us as [|uuid us IH]; intros t inv inv' t' E Hd; cbn [breach_uuid_loop].
+    induction us as [|uuid us IH]; intros t inv inv' t' E HD Hd; cbn [breach_uuid_loop].
     - intros H. injection H as <- <-. split; [exact E|]. split; [apply grows_refl|]. split; [apply incl_refl|].
       split; [intros u []|intros u Hu; left; exact Hu].
     - assert (Happs : db_apps t0 = db_apps t) by apply (ext_core t E).
@@ -468,9 +481,10 @@ Section BreachPhase.
       rewrite Hloc.
       destruct (decrypt (a_blob a) (a_loc a)) as [p|] eqn:Edec.
       + destruct (r_handle_breach sc t uuid (a_loc a) p) as [s t1|] eqn:Er; cbn [bind]; [|discriminate].
-        destruct (ext_handle t uuid a p s t1 E Ef Edec Er) as [E1 [Hg1 [Hs Hans]]].
+        assert (HDa : D (a_loc a)) by (rewrite <- Hloc; exact HD).
+        destruct (ext_handle t uuid a p s t1 E Ef HDa Edec Er) as [E1 [Hg1 [Hs Hans]]].
         intros Hloop. rewrite <- Hloc in Hloop.
-        destruct (IH t1 _ inv' t' E1 Hd' Hloop) as [E' [Hg' [Hincl [Hall Hinv]]]].
+        destruct (IH t1 _ inv' t' E1 HD Hd' Hloop) as [E' [Hg' [Hincl [Hall Hinv]]]].
         split; [exact E'|]. split; [eapply grows_trans; eassumption|].
         assert (Hincl0 : incl inv inv').
         { intros x Hx. apply Hincl. destruct (status_rejected s); [apply in_or_app; left|]; exact Hx. }
@@ -485,7 +499,7 @@ Section BreachPhase.
           right. split; [left; reflexivity|]. exists a. split; [exact Ef|].
           unfold row_invalid. rewrite Edec, <- Hs. exact Hrej.
       + intros Hloop. rewrite <- Hloc in Hloop.
-        destruct (IH t _ inv' t' E Hd' Hloop) as [E' [Hg' [Hincl [Hall Hinv]]]].
+        destruct (IH t _ inv' t' E HD Hd' Hloop) as [E' [Hg' [Hincl [Hall Hinv]]]].
         split; [exact E'|]. split; [exact Hg'|].
         split; [intros x Hx; apply Hincl, in_or_app; left; exact Hx|]. split.
         * intros u [<-|Hu']; [|apply Hall; exact Hu'].
@@ -499,13 +513,13 @@ Section BreachPhase.
 
   (* every breached locator of the block *)
   Lemma breach_loop_spec ds : forall t inv inv' t',
-    Ext t -> breach_loop sc ds t inv = Ok inv' t' ->
+    Ext t -> (forall d, In d ds -> D d) -> breach_loop sc ds t inv = Ok inv' t' ->
     Ext t' /\ grows t t' /\ incl inv inv' /\
     (forall a, In a (db_apps t0) -> In (a_loc a) ds -> row_outcome t' inv' a) /\
     (forall u, In u inv' -> In u inv \/
                exists a, In a (db_apps t0) /\ app_uuid a = u /\ In (a_loc a) ds /\ row_invalid a).
   Proof.
-    induction ds as [|d ds IH]; intros t inv inv' t' E; cbn [breach_loop].
+    induction ds as [|d ds IH]; intros t inv inv' t' E HD; cbn [breach_loop].
     - intros H. injection H as <- <-. split; [exact E|]. split; [apply grows_refl|]. split; [apply incl_refl|].
       split; [intros a _ []|intros u Hu; left; exact Hu].
     - assert (Happs : db_apps t0 = db_apps t) by apply (ext_core t E).
@@ -515,8 +529,8 @@ Section BreachPhase.
       { intros u Hu. apply in_map_iff in Hu. destruct Hu as [a [<- Ha]]. apply filter_In in Ha.
         destruct Ha as [_ Ha]. apply N.eqb_eq in Ha. exact Ha. }
       destruct (breach_uuid_loop sc d us t inv) as [inv1 t1|] eqn:El; cbn [bind]; [|discriminate].
-      destruct (breach_uuid_loop_spec d us t inv inv1 t1 E Hus El) as [E1 [Hg1 [Hincl1 [Hall1 Hinv1]]]].
-      intros Hloop. destruct (IH t1 inv1 inv' t' E1 Hloop) as [E' [Hg' [Hincl' [Hall' Hinv']]]].
+      destruct (breach_uuid_loop_spec d us t inv inv1 t1 E (HD d (or_introl eq_refl)) Hus El) as [E1 [Hg1 [Hincl1 [Hall1 Hinv1]]]].
+      intros Hloop. destruct (IH t1 inv1 inv' t' E1 (fun x Hx => HD x (or_intror Hx)) Hloop) as [E' [Hg' [Hincl' [Hall' Hinv']]]].
       split; [exact E'|]. split; [eapply grows_trans; eassumption|].
       split; [intros x Hx; apply Hincl', Hincl1, Hx|]. split.
       + intros a Ha [Hd|Hd]; [|apply Hall'; assumption].
@@ -533,3 +547,175 @@ Section BreachPhase.
         * right. exists a. split; [exact Ha|]. split; [exact Hua|]. split; [right; exact Hl|exact Hri].
   Qed.
 End BreachPhase.
+
+(* ---------- the watcher's listener ---------- *)
+
+(* every field but the appointment / tracker tables and the watcher's height *)
+Definition same_but_rows (t t' : tower) : Prop :=
+  cfg t = cfg t' /\ gk_users t = gk_users t' /\ gk_height t = gk_height t' /\ db_users t = db_users t' /\
+  w_cache t = w_cache t' /\ r_index t = r_index t' /\ car_height t = car_height t' /\
+  car_memo t = car_memo t' /\ reorged t = reorged t' /\ rpc_log t = rpc_log t'.
+
+Lemma filter_all {A} (f : A -> bool) l : (forall x, In x l -> f x = true) -> filter f l = l.
+Proof.
+  induction l as [|x l IH]; cbn [filter]; intros H; [reflexivity|].
+  rewrite (H x (or_introl eq_refl)). f_equal. apply IH. intros y Hy. apply H. right. exact Hy.
+Qed.
+
+Lemma delete_invalid_spec t2 inv t3 :
+  (match inv with [] => Ok tt t2 | l => gk_delete_appointments t2 l false end) = Ok tt t3 ->
+  db_apps t3 = filter (fun a => negb (mem_uuid (app_uuid a) inv)) (db_apps t2) /\
+  db_trks t3 = filter (fun k => negb (mem_uuid (trk_uuid k) inv)) (db_trks t2) /\
+  same_but_rows t2 t3 /\ w_height t2 = w_height t3.
+Proof.
+  destruct inv as [|u inv].
+  - intros H. injection H as <-.
+    split; [symmetry; apply filter_all; reflexivity|].
+    split; [symmetry; apply filter_all; reflexivity|]. repeat split.
+  - cbn [gk_delete_appointments]. intros H. injection H as <-. repeat split.
+Qed.
+
+Lemma keys_of_cache_block hash txs : keys_of (ib_data (cache_block hash txs)) = txs.
+Proof.
+  unfold cache_block, keys_of. cbn [ib_data]. rewrite map_map. cbn [fst]. apply map_id.
+Qed.
+
+Lemma find_app_deleted apps us u :
+  mem_uuid u us = true -> find_app (filter (fun a => negb (mem_uuid (app_uuid a) us)) apps) u = None.
+Proof.
+  intros Hm. apply find_app_None_iff. intros Hin. apply in_map_iff in Hin. destruct Hin as [a [Hu Ha]].
+  apply filter_In in Ha. destruct Ha as [_ Ha]. rewrite Hu, Hm in Ha. discriminate.
+Qed.
+
+Lemma find_trk_deleted trks us u :
+  mem_uuid u us = true -> find_trk (filter (fun k => negb (mem_uuid (trk_uuid k) us)) trks) u = None.
+Proof.
+  intros Hm. apply find_trk_None_iff. intros Hin. apply in_map_iff in Hin. destruct Hin as [a [Hu Ha]].
+  apply filter_In in Ha. destruct Ha as [_ Ha]. rewrite Hu, Hm in Ha. discriminate.
+Qed.
+
+Lemma w_block_connected_inner sc t hash txs h t' :
+  NoDup (map app_uuid (db_apps t)) ->
+  w_block_connected sc t (cache_block hash txs) h = Ok tt t' ->
+  exists c inv t2,
+    ti_update (w_cache t) (cache_block hash txs) = Some c /\
+    Ext sc (set_w_cache t c) (fun d => In d txs) t2 /\
+    (forall a, In a (db_apps t) -> In (a_loc a) txs -> row_outcome sc (set_w_cache t c) t2 inv a) /\
+    (forall u, In u inv -> exists a, In a (db_apps t) /\ app_uuid a = u /\ In (a_loc a) txs /\
+                                     row_invalid sc (set_w_cache t c) a) /\
+    db_apps t' = filter (fun a => negb (mem_uuid (app_uuid a) inv)) (db_apps t) /\
+    db_trks t' = filter (fun k => negb (mem_uuid (trk_uuid k) inv)) (db_trks t2) /\
+    same_but_rows t2 t' /\ w_height t' = h.
+Proof.
+  intros Hnd. unfold w_block_connected.
+  destruct (ti_update (w_cache t) (cache_block hash txs)) as [c|]; [|discriminate].
+  rewrite keys_of_cache_block. cbn [db_apps set_w_cache].
+  set (t1 := set_w_cache t c).
+  set (ds := filter (fun d => existsb (fun a => N.eqb (a_loc a) d) (db_apps t)) txs).
+  destruct (breach_loop sc ds t1 []) as [inv t2|] eqn:El; cbn [bind]; [|discriminate].
+  assert (HD : forall d, In d ds -> In d txs) by (intros d Hd; apply filter_In in Hd; apply Hd).
+  destruct (breach_loop_spec sc t1 (fun d => In d txs) Hnd ds t1 [] inv t2 (ext_refl sc t1 _) HD El)
+    as [E2 [Hg [_ [Hall Hinv]]]].
+  destruct (match inv with [] => Ok tt t2 | _ :: _ => gk_delete_appointments t2 inv false end) as [[] t3|] eqn:Edel;
+    cbn [bind]; [|discriminate].
+  apply delete_invalid_spec in Edel. destruct Edel as [Ha3 [Hk3 [Hs3 Hw3]]].
+  intros H. injection H as <-.
+  exists c, inv, t2. split; [reflexivity|]. split; [exact E2|].
+  assert (Happs : db_apps t = db_apps t2) by apply (ext_core sc t1 _ t2 E2).
+  split; [|split; [|split; [|split; [|split]]]].
+  - intros a Ha Hl. apply Hall; [exact Ha|]. apply filter_In. split; [exact Hl|].
+    apply existsb_exists. exists a. split; [exact Ha|apply N.eqb_refl].
+  - intros u Hu. destruct (Hinv u Hu) as [[]|[a [Ha [Hua [Hl Hri]]]]].
+    exists a. repeat split; auto.
+  - cbn [db_apps set_w_height]. rewrite Ha3, <- Happs. reflexivity.
+  - cbn [db_trks set_w_height]. exact Hk3.
+  - unfold same_but_rows in *. cbn. exact Hs3.
+  - reflexivity.
+Qed.
+
+(* what the theorem says about one breached row *)
+Definition penalty_handled (sc : script) (t t' : tower) (p : N) : Prop :=
+  ti_get (r_index t) p <> None \/                                            (* found in the responder's index *)
+  (In (ev_getraw p true) (rpc_log t') /\ says_in_mempool sc p = true) \/     (* the node has it in its mempool *)
+  (exists r, In (ev_send p r) (rpc_log t')) \/                               (* submitted in this step *)
+  aget (car_memo t) p <> None.                                               (* submitted earlier in this block period *)
+
+Definition responded (t' : tower) (uuid : N * N) (d p : N) (s : cstatus) : Prop :=
+  exists k, In k (db_trks t') /\ trk_uuid k = uuid /\ t_dispute k = d /\ t_penalty k = p /\ status_of_row k = s.
+
+Definition dropped (t' : tower) (uuid : N * N) : Prop :=
+  find_app (db_apps t') uuid = None /\ find_trk (db_trks t') uuid = None.
+
+(* the rows of the appointments table that survive the block *)
+Definition survives_block (sc : script) (t : tower) (txs : list N) (a : app) : bool :=
+  if memN (a_loc a) txs then
+    match decrypt (a_blob a) (a_loc a) with
+    | None => false
+    | Some p => negb (status_rejected (breach_status sc t p))
+    end
+  else true.
+
+Theorem w_block_connected_breaches sc t hash txs h t' :
+  Inv t ->
+  w_block_connected sc t (cache_block hash txs) h = Ok tt t' ->
+  forall a, In a (db_apps t) -> memN (a_loc a) txs = true -> find_trk (db_trks t) (app_uuid a) = None ->
+  match decrypt (a_blob a) (a_loc a) with
+  | None => dropped t' (app_uuid a)
+  | Some p =>
+      let s := breach_status sc t p in
+      penalty_handled sc t t' p /\
+      (status_accepted s = true -> In a (db_apps t') /\ responded t' (app_uuid a) (a_loc a) p s) /\
+      (status_rejected s = true -> dropped t' (app_uuid a)) /\
+      (status_accepted s = false -> status_rejected s = false ->
+       In a (db_apps t') /\ find_trk (db_trks t') (app_uuid a) = None)
+  end.
+Proof.
+  intros HI Hw a Ha Hl Hnt. pose proof (inv_apps_nodup t HI) as Hnd.
+  destruct (w_block_connected_inner sc t hash txs h t' Hnd Hw)
+    as [c [inv [t2 [_ [E2 [Hall [Hinv [Happs [Htrks [Hrest Hh]]]]]]]]]].
+  apply memN_In in Hl. specialize (Hall a Ha Hl). unfold row_outcome in Hall.
+  assert (Hlog : rpc_log t2 = rpc_log t') by apply Hrest.
+  (* membership in the list of invalid appointments is decided by the row *)
+  assert (Hin_inv : In (app_uuid a) inv -> row_invalid sc (set_w_cache t c) a).
+  { intros Hi. destruct (Hinv _ Hi) as [a' [Ha' [Hu [_ Hri]]]].
+    rewrite (app_uuid_inj _ a a' Hnd Ha Ha' (eq_sym Hu)). exact Hri. }
+  assert (Hdrop : In (app_uuid a) inv -> dropped t' (app_uuid a)).
+  { intros Hi. apply mem_uuid_In in Hi. split; [rewrite Happs; apply find_app_deleted|rewrite Htrks; apply find_trk_deleted]; exact Hi. }
+  assert (Hstay : ~ In (app_uuid a) inv -> In a (db_apps t')).
+  { intros Hn. rewrite Happs. apply filter_In. split; [exact Ha|].
+    destruct (mem_uuid (app_uuid a) inv) eqn:Em; [apply mem_uuid_In in Em; contradiction|reflexivity]. }
+  (* trackers with this uuid after the breach phase were made from this row *)
+  destruct (ext_trks _ _ _ _ E2) as [new [Hnew Hmade]]. cbn [db_trks set_w_cache] in Hnew.
+  assert (Hmine : forall k, In k (db_trks t2) -> trk_uuid k = app_uuid a ->
+                            made_from sc (set_w_cache t c) (fun d => In d txs) k a).
+  { intros k Hk Hu. rewrite Hnew in Hk. apply in_app_or in Hk. destruct Hk as [Hk|Hk].
+    - exfalso. apply (find_trk_None _ _ Hnt). rewrite <- Hu. apply in_map. exact Hk.
+    - destruct (Hmade k Hk) as [a' [Ha' Hm]]. cbn [db_apps set_w_cache] in Ha'.
+      assert (a' = a).
+      { apply (app_uuid_inj _ a' a Hnd Ha' Ha). destruct Hm as [_ [Hm _]]. congruence. }
+      subst a'. exact Hm. }
+  unfold row_invalid in Hin_inv.
+  destruct (decrypt (a_blob a) (a_loc a)) as [p|] eqn:Edec; [|apply Hdrop; exact Hall].
+  change (breach_status sc (set_w_cache t c) p) with (breach_status sc t p) in *.
+  cbv zeta. destruct Hall as [[Hev Hacc] Hrej].
+  split; [|split; [|split]].
+  - unfold penalty_handled. rewrite <- Hlog. exact Hev.
+  - intros Hs. assert (Hn : ~ In (app_uuid a) inv).
+    { intros Hi. specialize (Hin_inv Hi). rewrite (accepted_not_rejected _ Hs) in Hin_inv. discriminate. }
+    split; [apply Hstay; exact Hn|].
+    destruct (Hacc Hs) as [k [Hk Hu]]. exists k.
+    destruct (Hmine k Hk Hu) as [_ [_ [Hd [Hp [Hst _]]]]].
+    assert (Hpk : t_penalty k = p) by congruence.
+    split; [|repeat split; [exact Hu|exact Hd|exact Hpk|rewrite <- Hpk; exact Hst]].
+    rewrite Htrks. apply filter_In. split; [exact Hk|]. rewrite Hu.
+    destruct (mem_uuid (app_uuid a) inv) eqn:Em; [apply mem_uuid_In in Em; contradiction|reflexivity].
+  - intros Hs. apply Hdrop, Hrej, Hs.
+  - intros Hna Hnr. assert (Hn : ~ In (app_uuid a) inv).
+    { intros Hi. specialize (Hin_inv Hi). congruence. }
+    split; [apply Hstay; exact Hn|].
+    apply find_trk_None_iff. intros Hi. apply in_map_iff in Hi. destruct Hi as [k [Hu Hk]].
+    rewrite Htrks in Hk. apply filter_In in Hk. destruct Hk as [Hk _].
+    destruct (Hmine k Hk Hu) as [_ [_ [_ [Hp [_ Hst]]]]].
+    assert (Hpk : t_penalty k = p) by congruence. rewrite Hpk in Hst.
+    change (breach_status sc (set_w_cache t c) p) with (breach_status sc t p) in Hst. congruence.
+Qed.
